@@ -11,6 +11,7 @@ package c07
 import (
 	"bytes"
 	"compress/zlib"
+	"encoding/base64"
 	"encoding/binary"
 	"encoding/hex"
 	"fmt"
@@ -48,6 +49,15 @@ var bz2Samples = []string{
 	"425a68393141592653598b410714000026d9800010400402000f4d9280200050a60009a08aa1e934f4c90918181b1c8c8e46868181e86474363b1d8f83e8f03f0d8d0e87f1772453850908b4107140",
 	"425a6839314159265359222f9340000003c002c00008000008200020a93d4198b6a078bb9229c28481117c9a00",
 	"425a683917724538509000000000",
+}
+
+// a bzip2 stream of 128 MiB of zeros (112 bytes; bz2.compress(b"\0"*(128<<20), 9)): the library has no bzip2 encoder, and no
+// mutation of a real stream yields one that expands like this
+const bz2BombB64 = "QlpoOTFBWSZTWQ4J4t8BX45AAMAAAAggADCATUZCoCWpCoCXMUFZJlNZDgni3wFfjkAAwAAACCAAMIBNRkKgJakKgJcxQVkmU1mB85rjAUTnQADEAAAIIAAwzAUpplRUQmxVFRCeLuSKcKEhS4+oQg=="
+
+func bz2Bomb() []byte {
+	b, _ := base64.StdEncoding.DecodeString(bz2BombB64)
+	return b
 }
 
 func zlibOf(p []byte, level int) []byte {
@@ -206,6 +216,9 @@ func genStreamFor(t *rapid.T, id int, allowBomb bool) (stream []byte, cd []uint3
 		}
 		return damage(t, zlibOf(payload(t), pickOf(t, "lvl", []int{0, 1, 6, 9}))), []uint32{uint32(uni(t, "lvlcd", 0, 9))}, "deflate"
 	case idBZIP2:
+		if allowBomb && uni(t, "bzbomb", 0, 9) == 0 {
+			return bz2Bomb(), []uint32{9}, "bzip2-bomb"
+		}
 		return damage(t, mustHex(pickOf(t, "bz", bz2Samples))), []uint32{9}, "bzip2"
 	case idShuffle:
 		p := payload(t)
@@ -231,7 +244,7 @@ func genFCase(t *rapid.T) FCase {
 	fc := FCase{Kind: kind}
 	// up to two more filters in front (they are undone after the last one); flag bit 0 = optional
 	nfront := pickOf(t, "nfront", []int{0, 0, 0, 1, 1, 2})
-	if kind == "deflate-bomb" {
+	if kind == "deflate-bomb" || kind == "bzip2-bomb" {
 		nfront = 0 // the oversized output is the point; what later stages do with it adds nothing
 	}
 	for i := 0; i < nfront; i++ {
@@ -282,7 +295,7 @@ func findTargets(reg *registry, usable func(string) bool) []chunkTarget {
 		}
 		func() {
 			defer func() { _ = recover() }()
-			f, _ := indep.Decode(b.Data, indep.Options{})
+			f, _ := indep.Decode(b.Data, indep.TolerateAll())
 			if f == nil {
 				return
 			}
